@@ -493,6 +493,7 @@ NARROW_CASES = [
     {"kind": "narrow", "word": 1, "n": 255}, {"kind": "narrow", "word": 1, "n": 256},
     {"kind": "narrow", "word": 2, "n": 65535}, {"kind": "narrow", "word": 2, "n": 65536},
     {"kind": "narrow", "word": 1, "n": 7}, {"kind": "narrow", "word": 8, "n": 300},
+    {"kind": "narrow", "word": 4, "n": 5, "byteorder": ">"}, {"kind": "narrow", "word": 2, "n": 300, "byteorder": ">"},
 ]
 
 
@@ -504,8 +505,13 @@ def c11_narrow(case, stats, log):
     IndxIO = catii_indxio()
     word, n = case["word"], case["n"]
     dt = numpy.dtype("u%d" % word)
-    rows = list(range(n))
+    rows = list(range(1, n + 1)) if case.get("byteorder") else list(range(n))
     entries = {(1,): numpy.array(rows, dtype=dt), (2,): numpy.array([], dtype=dt)}
+    if case.get("byteorder"):
+        # the caller's arrays are in the OTHER byte order (data read from a foreign source): the values are the same,
+        # so save() may refuse the arrays or write them little-endian, but not write their bytes verbatim
+        swapped = numpy.dtype(case["byteorder"] + "u%d" % word)
+        entries = {k: v.astype(swapped) for k, v in entries.items()}
     with disk.SimDisk() as d:
         f = d.writer("raw")
         try:
@@ -516,7 +522,7 @@ def c11_narrow(case, stats, log):
         except Exception as e:
             stats.count("narrow_word_save_refused")
             log.add("narrow", word, n, type(e).__name__)
-            if n < (1 << (8 * word)):
+            if n < (1 << (8 * word)) and not case.get("byteorder"):
                 raise Violation(prop, "save-raised:" + type(e).__name__, "save(rowid word %d)" % word,
                                 "%d row ids under %d-byte words fit, but save raised %r" % (n, word, e))
             return
